@@ -268,3 +268,15 @@ Proof. rewrite is_excluded_gm. induction ex as [|pat0 ex IH].
            ++ intros (p & Hin & Hp). exists p. split; [right; exact Hin|exact Hp].
            ++ intros (p & [Hd|Hin] & Hp); [subst p; rewrite Et, Hs in Hp; destruct Hp as [_ Hp]; apply any_normal_iff in Hp; congruence|]. exists p; auto.
 Qed.
+
+(** [trim_end_slash] removes exactly the trailing run of slashes. *)
+Lemma trim_end_slash_spec s :
+  exists k, s = trim_end_slash s ++ repeat PSEP k /\
+            (trim_end_slash s = [] \/ exists pre x, trim_end_slash s = pre ++ [x] /\ x <> PSEP).
+Proof. induction s as [|x r (k & E & H)]; [exists 0%nat; cbn; auto|]. cbn [trim_end_slash].
+  destruct (trim_end_slash r) as [|y r'] eqn:Et.
+  - destruct (Z.eqb_spec x PSEP) as [->|N].
+    + exists (S k). cbn [app repeat]. split; [now rewrite E at 1|auto].
+    + exists k. split; [cbn [app]; now rewrite E at 1|]. right. exists [], x. auto.
+  - exists k. split; [cbn [app]; now rewrite E at 1|]. right.
+    destruct H as [H|(pre & z & Hz & Nz)]; [discriminate|]. exists (x :: pre), z. cbn [app]. now rewrite Hz. Qed.
